@@ -1,12 +1,14 @@
 package harness
 
 import (
+	"bytes"
 	"crypto/rand"
 	"encoding/hex"
 	"encoding/json"
 	"fmt"
 	mrand "math/rand"
 	"net"
+	"net/netip"
 	"os"
 	"sort"
 	"strconv"
@@ -60,6 +62,7 @@ type sessCfg struct {
 	NomStep    uint32                 `json:"nomStep"`
 	Lite       map[string]bool        `json:"lite"`
 	CheckPrio  map[string]bool        `json:"checkPrio"`
+	TCPRemote  bool                   `json:"tcpRemote"`   // x9 is known to both agents as a TCP remote candidate
 	LiteDef    map[string]bool        `json:"liteDefault"` // the lite agent keeps its default disconnected timeout (no explicit option)
 	Walk       walkCfg                `json:"walk"`
 	Tr         trCfg                  `json:"tr"`
@@ -166,9 +169,31 @@ func payload(pid, n int) []byte {
 	return b
 }
 
+// payloadCookie builds a payload that is not a STUN message by its first byte (0xD0, cf. RFC 7983) but carries the STUN magic
+// cookie at offset 4, as an RTP packet with that timestamp would: 0xD0, pid (3 bytes), cookie, then a pattern.
+func payloadCookie(pid, n int) []byte {
+	if n < 20 {
+		n = 20
+	}
+	b := make([]byte, n)
+	b[0] = 0xD0
+	b[1], b[2], b[3] = byte(pid>>16), byte(pid>>8), byte(pid)
+	b[4], b[5], b[6], b[7] = 0x21, 0x12, 0xA4, 0x42
+	for i := 8; i < n; i++ {
+		b[i] = byte(pid*31 + i*7)
+	}
+
+	return b
+}
+
 func parsePayload(b []byte) dread {
 	if len(b) < 5 || b[0] != 0xD0 {
 		return dread{Pid: -1, Len: len(b)}
+	}
+	if len(b) >= 20 && b[4] == 0x21 && b[5] == 0x12 && b[6] == 0xA4 && b[7] == 0x42 {
+		pid := int(b[1])<<16 | int(b[2])<<8 | int(b[3])
+
+		return dread{Pid: pid, Len: len(b), Intact: bytes.Equal(b, payloadCookie(pid, len(b)))}
 	}
 	pid := int(b[1])<<24 | int(b[2])<<16 | int(b[3])<<8 | int(b[4])
 	ok := true
@@ -378,6 +403,20 @@ func runSession(t *testing.T, cfg *sessCfg, job *sessJob, rng *mrand.Rand, sched
 			tb = 150
 		}
 		ag.VerifSetTieBreaker(tb)
+		if cfg.TCPRemote {
+			// the attacker's address x9 is signalled as a TCP (passive) remote candidate: known, but on another transport.
+			// Nothing is dialled (only UDP is enabled locally); the session model, which is UDP only, does not see it.
+			hp, _ := netip.ParseAddrPort(symAddr["x9"])
+			tc, terr := ice.NewCandidateHost(&ice.CandidateHostConfig{Network: "tcp", Address: hp.Addr().String(), Port: int(hp.Port()),
+				Component: 1, TCPType: ice.TCPTypePassive})
+			if terr != nil {
+				t.Fatal(terr)
+			}
+			if terr = ag.AddRemoteCandidate(tc); terr != nil {
+				t.Fatal(terr)
+			}
+			synctest.Wait()
+		}
 		sd := &side{ag: ag, nomCtr: cfg.NomBase, gen: 1, rgen: 0, ufrag: map[int]string{1: u}, pwd: map[int]string{1: p}, tb: tb, tids: map[string]int{}, raw: map[int][12]byte{}}
 		_ = ag.OnCandidate(func(c ice.Candidate) {
 			sd.cbMu.Lock()
@@ -592,6 +631,9 @@ func runSession(t *testing.T, cfg *sessCfg, job *sessJob, rng *mrand.Rand, sched
 			rems := []map[string]any{}
 			rxs := map[string]int64{}
 			for _, r := range s.Remotes {
+				if !strings.HasPrefix(r.Net, "udp") {
+					continue // a remote candidate of another transport is not part of the (UDP) session
+				}
 				rems = append(rems, map[string]any{"addr": sym(r.Addr), "typ": r.Typ, "prio": rank(r.Prio)})
 				rx := int64(-1)
 				if !r.Rx.IsZero() {
@@ -631,7 +673,7 @@ func runSession(t *testing.T, cfg *sessCfg, job *sessJob, rng *mrand.Rand, sched
 				bs, br = S[n].conn.BytesSent(), S[n].conn.BytesReceived()
 			}
 			res[n] = map[string]any{
-				"role": s.Role, "conn": s.Conn, "locals": locs, "remotes": rems, "pairs": prs, "pend": pend, "sel": s.Sel,
+				"role": s.Role, "conn": s.Conn, "locals": locs, "remotes": rems, "pairs": prs, "pend": pend, "sel": s.Sel, "selListed": s.SelListed,
 				"nomPair": s.NomPair, "gen": S[n].gen, "rgen": S[n].rgen, "rx": rxs, "lastNom": s.LastNom, "gath": s.Gath,
 				"cbConn": con, "cbSel": sel, "cbCand": cnd,
 				"rd": rds, "bsent": bs, "brecv": br, "selCnt": selCnt, "tally": []int{S[n].wrPk, S[n].wrBy, S[n].rdPk, S[n].rdBy},
@@ -833,6 +875,10 @@ func runSession(t *testing.T, cfg *sessCfg, job *sessJob, rng *mrand.Rand, sched
 			pidCtr++
 			rec["ag"], rec["pid"], rec["len"], rec["stun"], rec["err"], rec["n"] = c.ag, pidCtr, c.i, false, "", 0
 			pl := payload(pidCtr, c.i)
+			rec["cookie"] = c.want != nil && c.want["cookie"] == true
+			if rec["cookie"] == true {
+				pl = payloadCookie(pidCtr, c.i)
+			}
 			rec["len"] = len(pl)
 			if c.want != nil && c.want["stun"] == true {
 				msg, _ := stun.Build(stun.BindingRequest, stun.TransactionID, stun.Fingerprint)
@@ -1032,6 +1078,7 @@ func runSession(t *testing.T, cfg *sessCfg, job *sessJob, rng *mrand.Rand, sched
 						acts = append(acts, act{ev: "Write", ag: n, i: ln})
 					}
 					acts = append(acts, act{ev: "Write", ag: n, i: 20, want: map[string]any{"stun": true}}, act{ev: "InjectData", ag: n}, act{ev: "InjectData", ag: n})
+					acts = append(acts, act{ev: "Write", ag: n, i: 32, want: map[string]any{"cookie": true}})
 				}
 				if cfg.Walk.Renom > 0 && (sn.Role != "controlling" || !cfg.Renom) && badRenoms < 2 {
 					acts = append(acts, act{ev: "RenominateBad", ag: n})
@@ -1154,6 +1201,9 @@ func runSession(t *testing.T, cfg *sessCfg, job *sessJob, rng *mrand.Rand, sched
 			}
 			if v, ok := a["len"].(float64); ok && c.ev == "Write" {
 				c.i = int(v)
+				if a["cookie"] == true {
+					c.want = map[string]any{"cookie": true}
+				}
 				if a["stun"] == true {
 					c.want = map[string]any{"stun": true}
 				}
